@@ -29,7 +29,8 @@ PROPS = {
 PROPS["C16"] = dict(
     lean_modules=["QuaiVerif.Props.C16"],
     areas=[dict(name="addr", spec_ops=("filter",), n_quick=400, n_thorough=6000, seeds_thorough=3, n_search=2000),
-           dict(name="utxo", n_quick=300, n_thorough=6000, seeds_thorough=2, n_search=1500)],
+           dict(name="utxo", n_quick=300, n_thorough=6000, seeds_thorough=2, n_search=1500),
+           dict(name="sign", spec_ops=("sender", "sigvals"), n_quick=400, n_thorough=6000, seeds_thorough=2, n_search=1500)],
     rule="a case is one node location plus 10-40 operations over byte strings of length 0-40 biased to the location prefix byte, the 127/128 ledger "
          "boundary and all-zero addresses: every constructor/decoder (bytes, bytes20, hex, proto, scan, pubkey, CREATE, CREATE2, RLP, JSON, text), scope "
          "predicates, StateDB account creation with adversarial addresses, GrindContract; non-trivial = yields both kinds or reaches state/grind",
@@ -223,8 +224,8 @@ PROPS["C01"] = dict(
 )
 
 PROPS["C02"] = dict(
-    lean_modules=["QuaiVerif.Props.C02", "QuaiVerif.Props.C05"],
-    areas=[dict(name="evm", n_quick=3000, n_thorough=40000, seeds_thorough=3, n_search=8000)],
+    lean_modules=["QuaiVerif.Props.C02", "QuaiVerif.Props.C02b", "QuaiVerif.Props.C05"],
+    areas=[dict(name="evm", spec_ops=("gasbuy",), n_quick=3000, n_thorough=40000, seeds_thorough=3, n_search=8000)],
     rule="(shared area with C05) the vtree cases: a tree (depth <= 3, up to 12 contracts with random balances) of CALL / CALLCODE with values 0-400, DELEGATECALL, "
          "STATICCALL, ETX emissions, SELFDESTRUCT to any account incl. itself, frames ending in STOP or REVERT, both sides of the self-destruct refund fork, run "
          "either through EVM.Call or as a whole transaction through core.ApplyMessage with gas purchase and refund; every account balance and the emitted ETXs compared",
